@@ -1344,10 +1344,11 @@ def oracle_sizemults(case):
 
 
 # length-scale guards at half the share observed on the unchanged tree, where the open finding KEY_TOL excludes every case with a
-# cell <= 1e-2 working units and a third of those at 1e6 (shares over the remaining cases there: scaled 0.18-0.20, scaled_large
-# 0.10-0.16, scaled_small 0.04-0.08, nt_scaled 0.06-0.14; behind the repair: 0.33-0.47, 0.08-0.13, 0.20-0.34, 0.15-0.27, and
-# scale_1e-10 0.09-0.12)
-SCALE_SHARE = {'scaled': 0.09, 'scaled_large': 0.05, 'scaled_small': 0.02, 'nt_scaled': 0.03, 'C_magnitude_scaled': 0.19}
+# cell <= 1e-2 working units and a third of those at 1e6 (shares over the remaining cases there: scaled 0.16-0.22, scaled_large
+# 0.10-0.19, scaled_small 0.035-0.08, nt_scaled 0.044-0.14; behind the repair: 0.33-0.47, 0.08-0.13, 0.20-0.34, 0.15-0.27, and
+# scale_1e-10 0.09-0.12: raise the guards to scaled 0.2, scaled_small 0.12, nt_scaled 0.08, scale_1e-10 0.05 once it has landed).
+# sizemults (400 cases): the overall share only
+SCALE_SHARE = {'scaled': 0.075, 'scaled_large': 0.05, 'scaled_small': 0.02, 'nt_scaled': 0.02, 'C_magnitude_scaled': 0.19}
 SOLVER_SHARE = {'solver_refused': 0.02}
 
 CLAUSES = [
@@ -1370,6 +1371,6 @@ CLAUSES = [
            min_share=dict({'nt': 0.05, 'tail': 0.12, 'exact_linear': 0.03, 'bookkeeping': 0.15, 'tripled': 0.01}, **SCALE_SHARE),
            max_share=dict({'refusal': 0.25}, **SOLVER_SHARE),
            desc='disregistry across the slip plane accumulates to b up to the analytic tail bound (exactly b (x_hi-x_lo)/L for the linear field); error shrinks when the width is tripled'),
-    Clause('sizemults', oracle_sizemults, sizemults_cases, quick=400, thorough=4000, min_share=dict({'monopole': 0.1}, **SCALE_SHARE), max_share=SOLVER_SHARE,
+    Clause('sizemults', oracle_sizemults, sizemults_cases, quick=400, thorough=4000, min_share={'monopole': 0.1, 'scaled': 0.075}, max_share=SOLVER_SHARE,
            desc='sizemults as the documented tuple equals the list result; a list argument is left untouched and the call is repeatable'),
 ]
